@@ -16,6 +16,7 @@ NA = {}
 if os.path.exists("not_applicable.json"):
     NA = json.load(open("not_applicable.json"))
 
+CLAIMED = set(json.load(open("claimed.json")))
 hook_commits = []
 try:
     out = subprocess.run(["git", "-C", "/repo", "log", "--format=%H %s"], capture_output=True, text=True).stdout
@@ -31,7 +32,7 @@ na = []
 for p in props:
     pid = p["id"]
     path = os.path.join("vt", "props", pid + ".py")
-    if pid in NA or not os.path.exists(path):
+    if pid in NA or not os.path.exists(path) or pid not in CLAIMED:
         na.append({"property_id": pid, "reason": NA.get(pid, "check not built yet in this framework (no claim made)")})
         continue
     mod = importlib.import_module("vt.props." + pid)
